@@ -114,11 +114,11 @@ func (cons *VgaTextConsole) Fill(x, y, width, height uint32, fg, bg uint8) {
 		y = cons.height
 	}
 
-	if x+width-1 > cons.width {
+	if width > cons.width-x+1 {
 		width = cons.width - x + 1
 	}
 
-	if y+height-1 > cons.height {
+	if height > cons.height-y+1 {
 		height = cons.height - y + 1
 	}
 
